@@ -73,19 +73,26 @@ RULE = (
     "every single fault after which the save still returned normally (failing setup call worked around, "
     "EXDEV fallback) is kept in place while the run is recorded again and the positions that follow it "
     "(exceptions, mid-write and LINE deaths) are exercised - sampled in quick, all in thorough - plus a "
-    "primary failure followed by a failing cleanup call. Before the enumeration (which the time budget cuts "
+    "primary failure followed by a failing cleanup call. File-system fault sites are the effects the property names, "
+    "whichever stdlib function the save reaches them through (mode copy = shutil.copymode/copystat, os.chmod/fchmod; "
+    "rename = os.replace/rename/renames, shutil.move; temp creation = tempfile.mkdtemp/mkstemp; cleanup = os.remove/unlink, "
+    "os.rmdir, also inside a shutil.rmtree). Resource exhaustion: from every descriptor-consuming call of the recorded run "
+    "(open of the data file, open of a source file, temp creation), from a sample of the other counted calls and from a "
+    "sample of the LINE events onwards the process cannot obtain another file descriptor until the save ends (kernel-"
+    "enforced RLIMIT_NOFILE: EMFILE from open/os.open/scandir/listdir/mmap/... alike, path-based calls keep working), so "
+    "cleanup code that itself needs a descriptor is exercised. Before the enumeration (which the time budget cuts "
     "after a few scenarios per shard) the undisturbed save of every planned scenario is run and judged, together with "
-    "its client-state variants and five sampled single exception positions. "
+    "its client-state variants, five sampled single exception positions and two sampled starting points of descriptor exhaustion. "
     "Non-trivial: a destination data file pre-exists, at least one tensor is written, and at least one "
     "death and one exception position were exercised; distinct by scenario description."
 )
 ASSUMPTIONS = [
     "process death is os._exit at a LINE event or in the middle of a write: page cache survives, no power loss / fsync ordering is modelled",
-    "exceptions are injected only at calls the save makes to tempfile.mkdtemp, open, file seek/write/truncate/flush/close, the write(2) calls CPython's own buffered layer makes for the data file being produced (the harness opens it unbuffered and puts a real io.BufferedWriter/BufferedRandom on top; once refused, every later write(2) on a data file is refused too; bytes numpy/copy_file_range write through the descriptor itself are not intercepted there), os.copy_file_range, shutil.copymode, os.replace, os.remove, os.rmdir, tensor tofile/tobytes/numpy, LazyTensor functions and the user callback - never at arbitrary lines",
-    "the wrappers take effect because external_data/_core resolve os.replace, shutil.copymode, tempfile.mkdtemp, os.remove, os.rmdir, os.copy_file_range and open at call time; a refactoring that binds them early makes the position counters drop below their floors (inconclusive), never 'held'",
+    "exceptions are injected only at calls the save makes to tempfile.mkdtemp, open, file seek/write/truncate/flush/close, the write(2) calls CPython's own buffered layer makes for the data file being produced (the harness opens it unbuffered and puts a real io.BufferedWriter/BufferedRandom on top; once refused, every later write(2) on a data file is refused too; bytes numpy/copy_file_range write through the descriptor itself are not intercepted there), os.copy_file_range, the mode copy (shutil.copymode/copystat, os.chmod/fchmod/lchmod - whichever the save calls), the rename (os.replace/rename/renames, shutil.move), the cleanup calls (os.remove/unlink, os.rmdir, directly or inside shutil.rmtree), tensor tofile/tobytes/numpy, LazyTensor functions and the user callback - never at arbitrary lines; descriptor exhaustion is the kernel's own EMFILE (RLIMIT_NOFILE soft limit 0 from the chosen call / LINE event until the save ends), ENFILE is taken to behave alike",
+    "the wrappers take effect because external_data/_core resolve the os/shutil/tempfile functions and open at call time (a call counts as an effect of the save when onnx_ir code makes it directly or through shutil/tempfile/pathlib, outermost wrapped call only); a refactoring that binds them early makes the position counters drop below their floors (inconclusive), never 'held'",
     "the complete new bytes are those of an undisturbed save of the same scenario into another directory (cross-checked against the concatenation of the generated payloads: mismatches are counted, C07 judges layout)",
     "in parallel saves the k-th call / n-th LINE event is schedule dependent; every index of the recorded run is still exercised once",
-    "failures of the cleanup calls (os.remove/os.rmdir) and injected faults that fire after os.replace returned are judged on destination bytes only; a save that raises although no injected fault fired (the exception is its own reaction to the scenario: a tensor whose memory map the client still holds cannot be released, a name is too long) is judged strictly wherever the code let it happen",
+    "failures of the cleanup calls and injected tensor/callback/source-open faults that fire after the rename returned (tensors below the threshold are evaluated while the model file is serialised) are judged on destination bytes only, and so is descriptor exhaustion when the rename had returned before the save ended (what failed for want of a descriptor came after the data file was in place); a failing file-system effect on the data file itself (temp creation, open/write/close, mode copy) is judged strictly wherever the code placed it, also behind the rename; a save that raises although no injected fault fired (the exception is its own reaction to the scenario: a tensor whose memory map the client still holds cannot be released, a name is too long) is judged strictly wherever the code let it happen",
     "'its backing file was actually replaced' is decided per tensor from the inode and content behind the name the tensor itself reads through (links followed), before and after the save",
     "when the undisturbed reference save returns but leaves the regular file behind the destination unchanged, the complete new bytes are taken to be the concatenation of the generated payloads (report-only counter) and the scenario is still judged",
 ]
@@ -196,9 +203,13 @@ def plan(tier: str) -> dict:
             "death_outcome|old": 1500 if quick else 15000,
             "death_outcome|new": 300 if quick else 3000,
             "exc_points|total": 300 if quick else 5000,
+            # effect classes (whichever stdlib function the save uses for them): rename, mode copy, temp creation
             "exc_fired|replace": 8 if quick else 100,
             "exc_fired|copymode": 6 if quick else 80,
             "exc_fired|mkdtemp": 4 if quick else 80,
+            # descriptor exhaustion (kernel-enforced) from a counted call / LINE event onwards
+            "exc_fired|descriptors-exhausted": 40 if quick else 600,
+            "undisturbed_pass|exc_fired|descriptors-exhausted": 100 if quick else 1500,
             "exc_fired|open": 5 if quick else 80,
             "exc_fired|file.write": 15 if quick else 200,
             # write(2) refused below the buffered layer (reported late, buffered bytes lost)
@@ -562,8 +573,12 @@ def run_save(sc: Scenario, plan: F.Plan, mon_mode: str = "off", target: int = -1
         kwargs["max_shard_size_bytes"] = spec["max_shard"]
     mon = monitor()
     exc = None
+    action = None
+    if mon_mode == "off" and plan.line_exhaust() is not None:
+        # descriptors run out at a LINE event of the save (position independent of every wrapper)
+        mon_mode, target, action = "call", plan.line_exhaust(), plan.exhaust_at_line
     with F.patched(plan, opaque=spec["opaque"], external_data_module=_ir_ed, core_module=_ir_core):
-        mon.start(mon_mode, target)
+        mon.start(mon_mode, target, action)
         try:
             ir.save(sc.model, os.path.join(sc.root, MODEL), **kwargs)
         except BaseException as e:  # noqa: BLE001 - injected KeyboardInterrupt/MemoryError included
@@ -843,7 +858,20 @@ class Judge:
         # (when no injected fault fired at all the exception is the save's own reaction to the scenario
         # - a tensor whose mapping the client still holds cannot be released, a name is too long, ... -
         # and WHERE the code lets it happen is the code's choice, not the harness's: judged strictly)
-        late = any(not before for (_s, _k, _how, before) in plan.fired)
+        # A failing file-system effect ON the data file being produced (temp creation, opening / writing it,
+        # mode copy) is a failure of producing it WHEREVER the code placed that effect - also behind its
+        # rename.  (Tensors and lazy functions are also evaluated while the model file is serialised, after
+        # the data file is in place: those stay 'late'.)  Descriptor exhaustion is a state, not a failing
+        # call: it is late when the real rename had returned before the save ended (what then failed for
+        # want of a descriptor came after the data file was in place, e.g. writing the model file).
+        late = False
+        for (site_, _k, how_, before) in plan.fired:
+            if how_ == "exhaust":
+                late = late or plan.replaced > 0
+            elif not before and site_ not in PRODUCING_SITES:
+                late = True
+            elif not before and not spec["sharded"]:
+                ctx.count(f"exc_fired_behind_rename_judged_strictly|{site_}")
         strict = not cleanup_fault and not late
         where = "exception"
         outcome = "n/a"
@@ -936,17 +964,34 @@ def _before_ino(sc: Scenario) -> dict:
 
 def _fault_tag(site: str, k: int, how: str, single_file: bool) -> str:
     """Mechanism-level name of a fault position."""
+    # effect classes, not functions: 'mode-copy' is shutil.copymode / copystat / os.chmod / fchmod alike,
+    # 'rename' os.replace / rename / shutil.move, 'temp-creation' tempfile.mkdtemp / mkstemp,
+    # 'cleanup-remove' os.remove / unlink, 'cleanup-rmdir' os.rmdir (also inside a shutil.rmtree)
     nice = {
-        "mkdtemp": "tempfile.mkdtemp", "copymode": "shutil.copymode", "replace": "os.replace",
-        "remove": "os.remove", "rmdir": "os.rmdir", "copy_file_range": "os.copy_file_range",
+        "mkdtemp": "temp-creation", "copymode": "mode-copy", "replace": "rename",
+        "remove": "cleanup-remove", "rmdir": "cleanup-rmdir", "copy_file_range": "os.copy_file_range",
         "core.open": "open(source)", "open": "open(datafile)",
-        "raw.write": "write(2)@datafile",
+        "raw.write": "write(2)@datafile", "line": "line-event",
     }.get(site, site)
     if single_file and site in ("mkdtemp", "copymode", "replace", "remove", "rmdir"):
         nice += f"#{k}"
     if how.endswith("after_half"):
         nice += ":after-half"
+    if how == "exhaust":
+        nice = "descriptors-exhausted@" + nice
     return nice
+
+
+# file-system effects on the data file being produced ("temp creation, each tensor write incl. mid-tensor,
+# mode copy"): a save that raises because one of them failed has failed to produce the new data file
+PRODUCING_SITES = frozenset({
+    "mkdtemp", "open", "file.seek", "file.write", "file.truncate", "file.flush", "file.close", "raw.write",
+    "copy_file_range", "copymode",
+})
+# descriptor exhaustion begins at: every call that consumes a descriptor itself, and a sample of the others
+EXHAUST_EVERY = ("mkdtemp", "open", "core.open")
+EXHAUST_SOME = ("callback", "tensor.tofile", "tensor.tobytes", "tensor.numpy", "lazy.func", "file.write",
+                "file.seek", "copy_file_range", "copymode", "replace")
 
 
 _ERRNOS = {
@@ -976,6 +1021,29 @@ _NON_OS = {
     "callback": [["RuntimeError"], ["KeyboardInterrupt"]],
 }
 _HALF_SITES = ("file.write", "tensor.tofile", "copy_file_range", "raw.write")
+
+
+def exhaustion_positions(counts: Counter, rng, all_variants: bool, line_events: int = 0) -> list[list]:
+    """Resource exhaustion: from the k-th call of a site (or from a LINE event) onwards the process
+    cannot obtain another file descriptor - EMFILE from every descriptor-consuming call, by whatever
+    function, until the save ends.  Every call that consumes a descriptor itself is a position; between
+    two such calls all starting points are equivalent, so the other sites and the LINE events are sampled."""
+    plans = []
+    for site in EXHAUST_EVERY:
+        for k in range(1, counts.get(site, 0) + 1):
+            plans.append([[site, k, ["exhaust", None]]])
+    some = [site for site in EXHAUST_SOME if counts.get(site, 0)]
+    if not all_variants:
+        some = sorted(rng.sample(some, min(len(some), 3)))
+    for site in some:
+        c = counts[site]
+        for k in sorted(rng.sample(range(1, c + 1), min(c, 3 if all_variants else 1))):
+            plans.append([[site, k, ["exhaust", None]]])
+    if line_events:
+        m = min(line_events, 40 if all_variants else 5)
+        for n in sorted(rng.sample(range(line_events), m)):
+            plans.append([["line", n, ["exhaust", None]]])
+    return plans
 
 
 def exception_positions(counts: Counter, rng, all_variants: bool) -> list[list]:
@@ -1184,9 +1252,15 @@ def run_exception_case(judge: Judge, spec: dict, faults: list) -> tuple[str, boo
     if fired:
         group = site.split(".")[0] if site.startswith(("tensor.", "lazy.")) else site
         group = "tensor" if group in ("tensor", "lazy") else group
-        ctx.count(f"exc_fired|{group}")
+        if action[0] == "exhaust":
+            ctx.count("exc_fired|descriptors-exhausted")
+            ctx.count(f"exc_fired|descriptors-exhausted|from {_fault_tag(site, 0, 'raise', False)}")
+        else:
+            ctx.count(f"exc_fired|{group}")
     else:
         ctx.count("exc_position_not_reached")
+    for via, c in plan.reached.items():
+        ctx.count(f"effect_reached|{via}", c)
     if exc is None:
         ctx.count("exc_absorbed_or_not_reached(save returned)")
         outcome = judge.judge_success(sc, s1, before, where="success-after-fault", fault_tag=tag, replay=replay)
@@ -1299,18 +1373,22 @@ def enumerate_scenario(ctx, spec: dict, base: str, *, all_variants: bool, pairs:
     plans = exception_positions(counts, rng, all_variants)
     if pairs:
         plans += pair_positions(counts, rng)
+    # (after the draws above, which stay what they were) descriptor exhaustion from every descriptor-
+    # consuming call, a sample of the other calls and a sample of the LINE events onwards
+    plans += exhaustion_positions(counts, rng, all_variants, events)
     for faults in plans:
         if abandoned or ctx.out_of_time():
             abandoned = True
             break
         outcome, fired, returned = run_exception_case(judge, spec, faults)
-        if len(faults) == 1 and faults[0][0] in SETUP_SITES:
+        exhaust = faults[0][2][0] == "exhaust"
+        if len(faults) == 1 and faults[0][0] in SETUP_SITES and not exhaust:
             ctx.count("pair_first_faults|setup call failed: " + ("save carried on" if fired and returned
                                                                    else "save raised by itself" if fired else "not reached"))
-        if len(faults) == 1 and fired and returned:
+        if len(faults) == 1 and fired and returned and not exhaust:
             absorbed.append(faults[0])
         ctx.count("exc_points|total")
-        key = "+".join(f[0] for f in faults)
+        key = "+".join(("descriptors-exhausted@" if f[2][0] == "exhaust" else "") + f[0] for f in faults)
         ctx.count(f"exc_points|{key}")
         exc_outcomes.setdefault(key, Counter())[outcome] += 1
 
@@ -1674,6 +1752,14 @@ def run(ctx) -> None:
                 for faults in sample[:PASS1_FAULT_SAMPLE]:
                     run_exception_case(judge, spec, faults)
                     ctx.count("undisturbed_pass|sampled_exception_positions")
+                # ... and two starting points of descriptor exhaustion (one at a counted call, one at a LINE event)
+                ex = exhaustion_positions(rec[0], prng, False, 0)
+                ex = [prng.choice(ex)] if ex else []
+                if rec[1]:
+                    ex.append([["line", prng.randrange(rec[1]), ["exhaust", None]]])
+                for faults in ex:
+                    run_exception_case(judge, spec, faults)
+                    ctx.count("undisturbed_pass|sampled_exhaustion_positions")
             shutil.rmtree(cdir, ignore_errors=True)
             ctx.count("undisturbed_pass|scenarios")
             ctx.count("undisturbed_pass|scenarios|" + ("sharded" if spec["sharded"] else "single-file"))
